@@ -264,7 +264,30 @@ def gen(args) -> list:
                 ev = {"op": "zoned_ctor", "loc": proj.t3_from_ns(loc_ns), "off": off, "cal": cal.id, "zone": z.id, "cand": proj.t3_from_ns(cand_ns),
                       "iv": {"start": t3i(ivc._raw_start), "end": t3i(ivc._raw_end), "wall": ivc.wall_offset.seconds}}
                 evs.append(result(ev, lambda: ZonedDateTime(local_date_time=ldt, zone=z, offset=Offset.from_seconds(off)), zone=True))
-            elif cz < 0.38:
+            elif cz < 0.46:
+                # a zoned value made from a local date-time by a resolver (lenient / strict / the zone's own at_* routes), for local times
+                # on and around transitions (skipped, ambiguous, ordinary): whichever instant the resolver picks - that is C05's
+                # business - the value's offset is the zone's offset at ITS instant and its local time is instant + offset
+                if iv.has_end:
+                    ns = proj.ns_from_t3(t3i(iv._raw_end)) + iv.wall_offset.seconds * 10**9 + rnd.choice(
+                        [-1, 0, 1, rnd.randint(-2 * 3600 * 10**9, 2 * 3600 * 10**9), 1800 * 10**9, -1800 * 10**9, 3600 * 10**9 - 1])
+                else:
+                    ns = proj.ns_from_t3(proj.t3_instant(i)) + iv.wall_offset.seconds * 10**9
+                if not (imin + NPD <= ns <= imax - NPD and cal._min_days + 1 <= ns // NPD <= cal._max_days - 1):
+                    continue
+                ldt = LocalDate._ctor(days_since_epoch=ns // NPD, calendar=cal).at(LocalTime.from_nanoseconds_since_midnight(ns % NPD))
+                how = rnd.randrange(4)
+                ev = {"op": "zoned_local", "loc": proj.t3_from_ns(ns), "cal": cal.id, "zone": z.id, "how": how}
+                try:
+                    r = [lambda: ldt.in_zone_leniently(z), lambda: z.at_leniently(ldt), lambda: ldt.in_zone_strictly(z), lambda: z.at_strictly(ldt)][how]()
+                    ev["res"], ev["res_zone"] = obs(r), r.zone.id
+                    iv3 = ref(z).get_zone_interval(r.to_instant())
+                    ev["iv"] = {"start": t3i(iv3._raw_start), "end": t3i(iv3._raw_end), "wall": iv3.wall_offset.seconds}
+                    ev["plus_zero"] = obs(r + Duration.zero)
+                except Exception as e:  # noqa: BLE001
+                    ev["exc"] = type(e).__name__
+                evs.append(ev)
+            elif cz < 0.5:
                 # Instant.in_utc(): the zoned value of the instant in UTC (ISO calendar)
                 ev = {"op": "zoned", "inst": proj.t3_instant(i), "cal": "ISO", "zone": "UTC", "route": 3,
                       "iv": {"start": [-2000000000, 0, 0], "end": [2000000000, 0, 0], "wall": 0}}
